@@ -28,9 +28,9 @@ Print Assumptions C16_failure_in_block.
 
 (* frame level: a call that fails, at whatever depth and after whatever partial mutation,
    leaves the world as it was when the call's root frame was pushed *)
-Theorem C16_call_rollback : forall p ops cur f stk,
-  fst (fst (run p ops cur f stk)) <> 0%N ->
-  snd (fst (run p ops cur f stk)) = root_snap f stk.
+Theorem C16_call_rollback : forall p async ops cur f stk,
+  fst (fst (run p async ops cur f stk)) <> 0%N ->
+  snd (fst (run p async ops cur f stk)) = root_snap f stk.
 Proof. exact run_failure_restores. Qed.
 Print Assumptions C16_call_rollback.
 
@@ -39,3 +39,34 @@ Theorem C16_do_execute_rollback : forall p t s,
   fst (fst (do_execute p t s)) <> 0%N -> snd (fst (do_execute p t s)) = s.
 Proof. exact do_execute_failure_restores. Qed.
 Print Assumptions C16_do_execute_rollback.
+
+(* timeout (call-context timer or a Timeout status reported by a callee) while inter-calls
+   are running, at any nesting depth: cleanUpFrames drops every frame of the call and the
+   world is the snapshot of the call's ROOT frame — the outer frames' writes do not survive *)
+Theorem C16_timeout_rollback_all_frames : forall p async ops cur f stk,
+  fst (fst (run p async ops cur f stk)) = StTimeout ->
+  snd (fst (run p async ops cur f stk)) = root_snap f stk.
+Proof. exact timeout_rollback_all_frames. Qed.
+Print Assumptions C16_timeout_rollback_all_frames.
+
+Theorem C16_cleanup_resets_to_target : forall k stk cur f,
+  leave_k root_snap true k stk StTimeout cur f = (StTimeout, root_snap f stk, root_frame f stk).
+Proof. exact cleanup_resets_to_target. Qed.
+Print Assumptions C16_cleanup_resets_to_target.
+
+(* ... and the timed-out transaction pays its whole (capped) step limit *)
+Theorem C16_timeout_consumes_all : forall p t s,
+  wf_params p -> wf_tx t -> fst (fst (do_execute p t s)) = StTimeout ->
+  f_used (snd (do_execute p t s)) = tx_limit p t.
+Proof. exact timeout_consumes_all. Qed.
+Print Assumptions C16_timeout_consumes_all.
+
+(* the variant of cleanUpFrames that resets to the snapshot of the frame that was current
+   when the clean-up started (instead of the target's) does NOT have the property *)
+Theorem C16_inner_only_cleanup_refuted :
+  exists p t s,
+    r_status (fst (execute_gen inner_snap p t s)) <> 0%N /\
+    snd (execute_gen inner_snap p t s)
+    <> charge_fee s (t_from t) (fee_of (fst (execute_gen inner_snap p t s))).
+Proof. exact inner_only_cleanup_refuted. Qed.
+Print Assumptions C16_inner_only_cleanup_refuted.
